@@ -17,6 +17,8 @@ import collections
 import json
 import string
 
+import os
+
 import mock
 
 import fw
@@ -787,6 +789,48 @@ def run_event(items, run, mon):
                     '%d events written for %s, %d read back: %r' % (len(names), obj, len(cap.events), sorted(names)))
 
 
+def _post_check(ev, it, run, mon):
+    """`trace.post` (what the node-side code calls): the event file is named after the clock reading at which it
+    was posted.  Two postings of the same event a fraction of a millisecond apart are two files, and the time field
+    of each name reads back as exactly the clock value (real `trace.post` + `fs.write_safe` on a temp directory,
+    `time.time` mocked to readings with microsecond digits)."""
+    import shutil
+    import tempfile
+    from treadmill import trace as tm_trace
+    try:
+        base = float(it['when'])
+    except (TypeError, ValueError):
+        return
+    if not 0 <= base < 2 ** 31:
+        return
+    clocks = [int(base) + 0.123456, int(base) + 0.123856]
+    tmp = tempfile.mkdtemp(prefix='c15-post-', dir='/dev/shm' if os.access('/dev/shm', os.W_OK) else None)
+    try:
+        names = []
+        for c in clocks:
+            with mock.patch('time.time', lambda c=c: c):
+                try:
+                    tm_trace.post(tmp, ev)
+                except Exception:       # pylint: disable=broad-except
+                    return              # (an event `post` cannot name: judged by the encoders' own items)
+            new = sorted(set(n for n in os.listdir(tmp) if not n.startswith('.')) - set(names))
+            if len(new) != 1:
+                mon.hit('posted-events-collide', 'trace.post',
+                        'posting %r at %r after %r left %r' % (ev, c, clocks[0], sorted(os.listdir(tmp))))
+                return
+            names.append(new[0])
+            try:
+                when = float(new[0].split(',', 1)[0])
+            except ValueError:
+                when = None
+            if when != c:
+                mon.hit('posted-event-time', 'trace.post', 'posted at %r, the file name says %r (%r)' % (c, when, new[0]))
+                return
+        run.tags.add('post-checked')
+    finally:
+        shutil.rmtree(tmp, ignore_errors=True)
+
+
 def _run_event_items(items, run, mon, published, _random):
     for it in items:
         if it['k'] == 'event':
@@ -813,6 +857,7 @@ def _run_event_items(items, run, mon, published, _random):
                 dobs, dev = _ev_decode_name(fam, name)
                 run.op('edec %s %s' % (fam, H(name)), dobs)
             if it['wf']:
+                _post_check(ev, it, run, mon)
                 # ---- monitor: from_data(to_data(e)) == e; node name decodes to the same event
                 same = _mk_event(it, timestamp=1.0, source='s')
                 if back is None or not back == same:
